@@ -156,6 +156,51 @@ func (x *Exec) native(st *State, fr *Frame, callee *ssa.Function, key string, ar
 				}
 			}
 		}
+		// fmt.Sprintf with a constant format made of literal text and %s / %v verbs, every operand a plain string:
+		// the concatenation (any other verb or operand kind: an arbitrary string, as before)
+		if key == "fmt.Sprintf" && len(argv) == 2 && argv[1].Sort == "Slice" && strings.HasPrefix(argv[0].S, "\"") && !strings.Contains(argv[0].S, "\\") && !strings.Contains(argv[0].S[1:len(argv[0].S)-1], "\"") {
+			if parts, n, ok := splitFormat(argv[0].S[1 : len(argv[0].S)-1]); ok && n >= 2 {
+				var et types.Type = types.NewInterfaceType(nil, nil)
+				if sl, ok := argv[1].T.Underlying().(*types.Slice); ok {
+					et = sl.Elem()
+				}
+				arr, known := "", false
+				if sd, ok := st.last["slice@"+argv[1].S]; ok && sd.Sort == "0" {
+					arr, known = sd.S, true
+				}
+				var ops []string
+				for i := 0; known && i < n; i++ {
+					el := st.load(st.elemAddrOf(arr, itoa(i), et), et)
+					c, ok := st.conc[el.S]
+					if !ok || c.Sort != "String" {
+						known = false
+						break
+					}
+					if b, ok := c.T.Underlying().(*types.Basic); !ok || b.Kind() != types.String {
+						known = false
+						break
+					}
+					ops = append(ops, c.S)
+				}
+				if known {
+					var terms []string
+					for i, lit := range parts {
+						if lit != "" {
+							terms = append(terms, sStr(lit))
+						}
+						if i < len(ops) {
+							terms = append(terms, ops[i])
+						}
+					}
+					out := terms[0]
+					if len(terms) > 1 {
+						out = "(str.++ " + strings.Join(terms, " ") + ")"
+					}
+					k(st, Val{T: rt, S: out, Sort: "String"})
+					return true
+				}
+			}
+		}
 		k(st, freshRet("str"))
 		return true
 	case "strings.Contains":
@@ -236,6 +281,34 @@ func (x *Exec) lockOp(st *State, m Val, acquire bool, pos token.Pos) {
 		}
 		st.lockLog = append(st.lockLog, "unlock "+key)
 	}
+}
+
+// splitFormat splits a format string that uses only %s and %v verbs into its literal parts (len = verbs+1).
+func splitFormat(f string) (parts []string, verbs int, ok bool) {
+	cur := ""
+	for i := 0; i < len(f); i++ {
+		if f[i] != '%' {
+			cur += string(f[i])
+			continue
+		}
+		if i+1 >= len(f) {
+			return nil, 0, false
+		}
+		switch f[i+1] {
+		case 's', 'v':
+			parts = append(parts, cur)
+			cur = ""
+			verbs++
+			i++
+		case '%':
+			cur += "%"
+			i++
+		default:
+			return nil, 0, false
+		}
+	}
+	parts = append(parts, cur)
+	return parts, verbs, true
 }
 
 // hexOf is the uninterpreted hex rendering of a byte slice's contents.
